@@ -65,22 +65,23 @@ def proj_slices(res, box, shape):
     return [[rng(sl[0], h), rng(sl[1], w)], [rng(ss[0], bh), rng(ss[1], bw)]]
 
 
-def call(op, a, b, c, img, flt, B, wrap=int, eps=(0, 0, 0, 0), epsk=20):
+def call(op, a, b, c, img, flt, B, wrap=int, eps=(0, 0, 0, 0), epsk=20, wrapb=None):
     """Perform one operation on the real class; return the projected result."""
     try:
         if op == 'from_float':
             d = 2.0 ** -epsk
             return proj_box(B.from_float(flt[0] / 8.0 + eps[0] * d, flt[1] / 8.0 + eps[1] * d, flt[2] / 8.0 + eps[2] * d, flt[3] / 8.0 + eps[3] * d))
         A = B(*[wrap(v) for v in a])
+        wrapb = wrapb or wrap
         if op == 'union':
-            r1 = A.union(B(*[wrap(v) for v in b]))
-            r2 = A | B(*[wrap(v) for v in b])
+            r1 = A.union(B(*[wrapb(v) for v in b]))
+            r2 = A | B(*[wrapb(v) for v in b])
             if proj_box(r1) != proj_box(r2):
                 return {'exc': 'union!=|'}
             return proj_box(r1)
         if op == 'intersection':
-            r1 = A.intersection(B(*[wrap(v) for v in b]))
-            r2 = A & B(*[wrap(v) for v in b])
+            r1 = A.intersection(B(*[wrapb(v) for v in b]))
+            r2 = A & B(*[wrapb(v) for v in b])
             if proj_box(r1) != proj_box(r2):
                 return {'exc': 'intersection!=&'}
             return proj_box(r1)
@@ -249,12 +250,21 @@ def trace_validation(ctx, B):
                 eps[1] = eps[0]
             if flt[2] == flt[3] and eps[2] > eps[3]:
                 eps[3] = eps[2]
-        real = call(op, a, b, [0, 0, 0, 0], img, flt, B, wrap=wrap, eps=eps, epsk=epsk)
+        wrapb = wrap
+        if op in ('union', 'intersection') and rnd.random() < 0.4:
+            # the two boxes hold their corners in different integer types (a small / unsigned numpy type with large or negative Python ints)
+            wrapb = rnd.choice([t for t in ints if t is not wrap])
+            if wrapb is int:
+                b = box(rnd.choice([1000, 10 ** 6, 10 ** 9]), True)
+            else:
+                infob = np.iinfo(wrapb)
+                b = box(min(int(infob.max) // 4, 10 ** 9), infob.min < 0)
+        real = call(op, a, b, [0, 0, 0, 0], img, flt, B, wrap=wrap, eps=eps, epsk=epsk, wrapb=wrapb)
         if isinstance(real, dict):
             res = real
         else:
             res = real
-        events.append({'op': op, 'a': a, 'b': b, 'img': img, 'flt': flt, 'eps': eps, 'epsk': epsk, 'res': res, 'wrap': wrap.__name__})
+        events.append({'op': op, 'a': a, 'b': b, 'img': img, 'flt': flt, 'eps': eps, 'epsk': epsk, 'res': res, 'wrap': wrap.__name__ + '/' + wrapb.__name__})
     # exceptions are not explainable by the spec: all of these calls are within the domain
     tl_events = []
     for e in events:
